@@ -197,8 +197,8 @@ def handle : List String → String
   | ["slop", mode, slop, ls] =>
     match slop.toNat?, slashLists ls with
     | some slop, some ls =>
-      if mode == "on" then showBool (PhraseSlop.phraseOn ls slop)
-      else if mode == "off" then showBool (PhraseSlop.phraseOff ls slop)
+      if mode == "on" then showBool (if slop = 0 then PhraseSlop.exactOn ls else PhraseSlop.phraseOn ls slop)
+      else if mode == "off" then showBool (if slop = 0 then PhraseSlop.exactOff ls else PhraseSlop.phraseOff ls slop)
       else if mode == "spec" then showBool (phraseSlop ls slop)
       else "bad-op"
     | _, _ => "bad-op"
